@@ -50,21 +50,26 @@ TEMPLATES = {
     "months_days_ago": [("a", 3), " months, ", ("b", 4), " days ago"],
     "in_decades": ["in ", ("a", 3), " decades"],
     "hours_ago_tz": [("a", 4), " hours ago +", ("g", 2), ("h", 2)],
+    "hm": [("e", 2), ":", ("f", 2)],
     "weekday": ["Friday"],
     "month_only": ["February"],
     "d_month": [("a", 2), " February"],
 }
 
 
-def h_total(template, base_kind, tz, to_tz, parsers=None, aware=None):
+def h_total(template, base_kind, tz, to_tz, parsers=None, aware=None, base_years=None, ranges=None, prefs=None):
     parts = TEMPLATES[template]
 
     def fn():
         v = {}
         for p in parts:
             if not isinstance(p, str):
-                v[p[0]] = C.field(p[0], 0, 10 ** p[1] - 1)
-        st, wit = C.pref_settings()
+                lo, hi = (ranges or {}).get(p[0], (0, 10 ** p[1] - 1))
+                v[p[0]] = C.field(p[0], lo, hi)
+        if prefs:
+            st, wit = dict(prefs), {}
+        else:
+            st, wit = C.pref_settings()
         if tz:
             st["TIMEZONE"] = tz
         if to_tz:
@@ -77,7 +82,7 @@ def h_total(template, base_kind, tz, to_tz, parsers=None, aware=None):
             tzinfo = None
             if base_kind.startswith("aware"):
                 tzinfo = _dt.timezone(_dt.timedelta(minutes=int(base_kind[5:])))
-            b = C.sym_base("b", 1, 9999, tzinfo=tzinfo)
+            b = C.sym_base("b", *(base_years or (1, 9999)), tzinfo=tzinfo)
             st["RELATIVE_BASE"] = b
             wit.update(C.base_witness(b))
         wit.update(v)
@@ -196,6 +201,15 @@ def tasks(tier, seed):
     add("total:time_only:clock:-1200>+0530:edge", "h_total", {"template": "time_only", "base_kind": "clock", "tz": "-1200", "to_tz": "+0530"}, 60)
     add("total:weekday:naive:+1400>-1200:edge", "h_total", {"template": "weekday", "base_kind": "naive", "tz": "+1400", "to_tz": "-1200"}, 60)
     add("total:years_ago:aware330:UTC>UTC+03:00:edge", "h_total", {"template": "years_ago", "base_kind": "aware330", "tz": "UTC", "to_tz": "UTC+03:00"}, 60)
+    # tz-database zones with transitions: pytz's own localize/utcoffset run symbolically (reference inside one year so that
+    # the transition table search stays small); gaps and repeated hours are INSIDE the quantifier here - nothing may escape
+    dz = ["America/New_York", "Europe/Paris", "Australia/Lord_Howe", "Asia/Kolkata"]
+    for j, z in enumerate(dz if not quick else [dz[seed % len(dz)]]):
+        for t in (("hm", "time_only", "iso_dt", "hours_ago_tz") if not quick else ("hm",)):
+            add("total-dst:%s:%s" % (t, z), "h_total", {"template": t, "base_kind": "naive", "tz": z, "to_tz": None if j % 2 else "UTC",
+                                                         "base_years": [2021, 2021],
+                                                         "ranges": {"e": [0, 23], "f": [0, 59]} if t == "hm" else None,
+                                                         "prefs": {"PREFER_DATES_FROM": ["future", "past"][j % 2]}}, 200)
     for key in sorted(_candidates()):
         add("settings:%s" % key, "h_settings", {"key": key}, 200)
     return out
@@ -207,7 +221,7 @@ def build_spec(task, viol):
     a = task["args"]
     if task["fn"] == "h_settings":
         return {"task": task["name"], "fn": "h_settings", "key": a["key"], "witness": w}
-    st = C.spec_settings({}, w)
+    st = C.spec_settings(dict(a.get("prefs") or {}), w)
     if a["tz"]:
         st["TIMEZONE"] = a["tz"]
     if a["to_tz"]:
